@@ -620,6 +620,9 @@ namespace Dune
       return _data;
     }
 
+    using Base::operator+=;
+    using Base::operator-=;
+
     //! add scalar
     FieldMatrix& operator+= (const K& k)
     {
